@@ -80,6 +80,21 @@ CHECKS = {
    "Every store call draws from {ok, not-found, error, delay, value truncated, random bytes, bit flip in header region / elsewhere, status field overwritten, empty} over histories of bursts, expiry, purge and eviction on a 16-entry cache with a healthy origin. Judged: always 200 with the key's intact body, hits only of still-valid versions, a memory-resident fresh hit never reads the store, an undecodable record yields an ordinary fetching miss, nobody stranded and no entry left fetching (hooked state at quiescence). Garbled values that still decode are classified by the harness decoding them itself and only taint the key.",
    "well-formed-but-altered records cannot be detected without an integrity field (known finding class undetectable-corruption); a purge whose store delete failed is not judged afterwards",
    "DESIGN.md 6/C10"),
+ "C08": ("proc", "fault_enumeration",
+   "crash-point enumeration on the real binary (self-kill at named hook points, external SIGKILL, SIGTERM) + offline check of every post-restart answer against the origin's log under a controlled clock",
+   "Real pike (race build) on a badger store with a clock-offset file. Three incarnations per case on the same store: populate and SIGKILL at quiescence; concurrent writes, hits and purges with the crash armed at the n-th passage of one of 8 hook points (before/after publishing, after persisting, after a load, between LRU removal and store delete), or SIGKILL at a random moment, or SIGTERM; restart and probe every key in the same second, at mid-life, at the exact expiry second and one second later. Each answer must be a byte-identical version of that key from the origin's log, hits only inside the original lifetime with Age continuing from the original fetch and without upstream contact, never a version whose purge completed, hit-for-pass only inside a marker's period; pike must come up after every stop.",
+   "refetch is always allowed; SIGKILL does not model power loss; eviction/reload with an LRU smaller than the working set is exercised in-process by C04/C05/C07/C11 with scripted stores",
+   "DESIGN.md 6/C08"),
+ "C17": ("proc", "exploration",
+   "independent closure predicate and per-field rules vs Validate; structural round-trip comparison through the real file client; probes against freshly started real processes",
+   "Generated configurations with names and free-text values that need YAML quoting: Validate must accept each valid one and reject each of 33 single injected defects (every dangling reference at first and last position, every malformed documented field); Write then Read must return the same configuration; accepted configurations are applied to fresh real pike processes and every server is probed: no 'cache dispatcher / upstream not found', no 'location not found' where the reference router finds one.",
+   "documented field kinds only; the hostname rule is the validator's (RFC 952); duplicate names and sub-second durations are accepted by pike and not judged",
+   "DESIGN.md 6/C17"),
+ "C16": ("proc", "exploration",
+   "differential monitor between a live-updated and a freshly started real process + continuity monitor under traffic; completion observed through hook events",
+   "Per sequence a live pike process receives 2-6 random valid updates (29 mutation kinds incl. optional fields set and unset) through the real admin PUT /config or an in-place write of the file, each completion observed via the update.done hook, while a client keeps requesting an unchanged server; a second process is started on the final configuration; a probe suite derived from that configuration is run against both and compared field by field (status, label, encoding, encoded and decoded bytes, headers, which origin saw which path, query and added headers), plus cache binding between servers, the retained hit of a key cached before the updates, and that a removed server stops listening. Two directed sequences (bestCompression override and removal; server removed and re-added at once) run every time.",
+   "restart-only settings are never changed; compressors are deterministic so equal levels give equal bytes",
+   "DESIGN.md 6/C16"),
 }
 ALL = ["C%02d" % i for i in range(1, 21)]
 NOT_BUILT_REASON = "no check is registered for this property yet (framework under construction; see DESIGN.md Appendix B build order)"
